@@ -46,7 +46,7 @@ ASSUMPTIONS = [
     'The node assigns real ids (>= 1000) on alloc, as a real node does; interpreter-local placeholder ids are mapped by position.',
     'Independent key hashing covers the key types generated here (int, string, bytes, pair int string, pair int int int string), using the legacy (nested-pair) packing for combs, as the protocol does for big_map keys.',
 ]
-EXPECTED_PROBES = ['parameter_big_map_session', 'empty_list_value_on_chain_read', 'sibling_key_types_same_text', 'read_chain_only_key', 'update_chain_only_key', 'remove_chain_only_key', 'reinsert_after_remove', 'read_after_local_remove_of_chain_key',
+EXPECTED_PROBES = ['long_lived_session_reused', 'session_switched_network', 'parameter_big_map_session', 'empty_list_value_on_chain_read', 'sibling_key_types_same_text', 'read_chain_only_key', 'update_chain_only_key', 'remove_chain_only_key', 'reinsert_after_remove', 'read_after_local_remove_of_chain_key',
                    'commit_with_removals', 'abandoned_session', 'failed_cell_midway', 'transient_on_read', 'second_txn_reads_first_txn_writes', 'dup_divergent']
 
 URI = 'http://node0.sim:8732'
@@ -227,8 +227,17 @@ def gen(seed, tier):
     p_fail = rng.choice([0.0, 0.0, 0.15, 0.3])
     p_fault = rng.choice([0.0, 0.0, 0.2, 0.5])
     opmix = [o for o in ('get', 'mem', 'upd_some', 'upd_none', 'gau_some', 'gau_none', 'dup_drop', 'dup_keep', 'dup_both') if rng.random() < 0.75] or ['get', 'upd_some']
+    same_session = rng.random() < 0.35  # one long-lived REPL session for all transactions (a notebook), instead of a fresh one each
+    two_nets = same_session and rng.random() < 0.4
+    chain0_b = {}
+    if two_nets:
+        # a second network holding big_maps with the same ids but other contents; the session switches with RESET "<network>"
+        for bm in ('1000', '1001'):
+            chain0_b[bm] = {str(ki): newval('d') for ki in range(len(keys)) if rng.random() < 0.6}
     steps = []
     for t in range(ntx):
+        if two_nets and t > 0 and rng.random() < 0.6:
+            steps.append({'op': 'switch'})
         src = rng.choice(['chain', 'chain', 'chain', 'literal', 'empty', 'prev', 'param'])
         if src == 'literal' and ktype == 'address_mix':
             src = 'empty'
@@ -256,7 +265,7 @@ def gen(seed, tier):
                                                 {'f': 'latency', 'ms': rng.choice([10, 5000])}])}
             steps.append(s)
         steps.append({'op': 'commit'} if rng.random() < 0.8 else {'op': 'abandon'})
-    return {'prop': ID, 'ktype': ktype, 'ktypes': ktypes, 'vtype': vtype, 'keys': keys, 'chain0': chain0, 'steps': steps}
+    return {'prop': ID, 'ktype': ktype, 'ktypes': ktypes, 'vtype': vtype, 'keys': keys, 'chain0': chain0, 'chain0_b': chain0_b, 'same_session': same_session, 'steps': steps}
 
 
 def cell_for(step, ktype, keys, vtype='string'):
@@ -332,12 +341,27 @@ def execute(scn, want_log=False):
     bm_ktype = {int(bm): kt for bm, kt in (scn.get('ktypes') or {'1000': scn['ktype'], '1001': scn['ktype']}).items()}
     HS = {kt: [key_hash(kt, k) for k in keys] for kt in set(bm_ktype.values())}
     # durable state + reference model
-    model = {}
-    for bm, content in scn['chain0'].items():
-        node.big_maps[int(bm)] = {HS[bm_ktype[int(bm)]][int(ki)]: val_micheline(vtype, v) for ki, v in content.items()}
-        model[int(bm)] = {int(ki): v for ki, v in content.items()}
+    nets = {'A': {'big_maps': {}, 'model': {}, 'last': [None]}, 'B': {'big_maps': {}, 'model': {}, 'last': [None]}}
+    for net, src0 in (('A', scn['chain0']), ('B', scn.get('chain0_b') or {})):
+        for bm, content in src0.items():
+            nets[net]['big_maps'][int(bm)] = {HS[bm_ktype[int(bm)]][int(ki)]: val_micheline(vtype, v) for ki, v in content.items()}
+            nets[net]['model'][int(bm)] = {int(ki): v for ki, v in content.items()}
+    cur_net = ['A']
+    node.big_maps = nets['A']['big_maps']
+    model = nets['A']['model']
     next_id = [2000]
-    tr = core.Transport(sim, node.handle, max_requests=3000)
+    def routed(req):
+        # two networks behind one transport: requests are answered from the store of the network they were addressed to
+        host = req['host']
+        net = 'B' if '127.0.0.1' in host else 'A'
+        path = req['path'][len('/mainnet'):] if req['path'].startswith('/mainnet/') else req['path']
+        node.big_maps = nets[net]['big_maps']
+        try:
+            return node.handle(dict(req, path=path))
+        finally:
+            node.big_maps = nets[cur_net[0]]['big_maps']
+
+    tr = core.Transport(sim, routed, max_requests=3000)
     step_state = {'first': 0, 'faults': {}}
 
     def fault_for(req):
@@ -351,7 +375,8 @@ def execute(scn, want_log=False):
     probes = {}
     states = set()
     judged = [0]
-    last_committed = [None]
+    last_committed = nets['A']['last']
+    shared = {'interp': None}
 
     def bump(k):
         probes[k] = probes.get(k, 0) + 1
@@ -402,11 +427,38 @@ def execute(scn, want_log=False):
             op = st['op']
             step_state['faults'] = st.get('faults') or {}
             sim.ev('step', i=i, op=op, k=st.get('k'))
+            if op == 'switch':
+                if shared['interp'] is None:
+                    continue
+                if sess is not None:
+                    bump('abandoned_session')
+                sess = None
+                cur_net[0] = 'B' if cur_net[0] == 'A' else 'A'
+                node.big_maps = nets[cur_net[0]]['big_maps']
+                model = nets[cur_net[0]]['model']
+                last_committed = nets[cur_net[0]]['last']
+                step_state['first'] = tr.attempts
+                rsw, _, _ = rs.run_cell(shared['interp'], 'RESET "sandbox"' if cur_net[0] == 'B' else 'RESET "mainnet"')
+                if rsw.error is not None:
+                    raise core.HarnessError(f'network switch failed: {rsw.stdout}')
+                bump('session_switched_network')
+                continue
             if op == 'begin':
                 if sess is not None:
                     bump('abandoned_session')
-                interp = Interpreter()
-                interp.context.shell = ShellQuery(RpcNode(URI))
+                if scn.get('same_session') and shared['interp'] is not None:
+                    interp = shared['interp']  # the notebook goes on: same interpreter, same context
+                    bump('long_lived_session_reused')
+                else:
+                    interp = Interpreter()
+                    if scn.get('same_session'):
+                        shared['interp'] = interp
+                        step_state['first'] = tr.attempts
+                        r_attach, _, _ = rs.run_cell(interp, 'RESET "mainnet"')  # attach through the public instruction (network A)
+                        if r_attach.error is not None:
+                            raise core.HarnessError(f'attach failed: {r_attach.stdout}')
+                    else:
+                        interp.context.shell = ShellQuery(RpcNode(URI))
                 src = st['src']
                 if src == 'prev' and last_committed[0] is None:
                     src = 'chain'
@@ -681,6 +733,10 @@ def simplify(scn):
     if scn.get('vtype', 'string') != 'string':
         c = cp()
         c['vtype'] = 'string'
+        yield c
+    if scn.get('same_session') and not any(st['op'] == 'switch' for st in scn['steps']):
+        c = cp()
+        c['same_session'] = False
         yield c
 
 
